@@ -1,5 +1,6 @@
 import NxModel.Nex.RmcServer
 import NxModel.Nex.RmcResult
+import NxModel.Nex.RmcRequest
 import NxModel.DriverUtil
 /-! line-protocol driver for the RMC server model (stateful: the table of registered servers)
   clear                                         -> ok
@@ -13,8 +14,15 @@ import NxModel.DriverUtil
                                                    method id, and the table id of the user method that then runs (`dispatch`)
   rchk <where> <slot> <val>                     -> ok | <type(e).__name__>   what writing <val> at a position declared <slot> raises
   rinc <slot> <val>                             -> - | type | other           the property's "wrongly typed" relation (`incompat`)
+  sdef <id> =<level>/<level>…                   -> ok     the `load` bodies of structure class <id>, base class first (kept across `clear`)
+                                                   level = items; item = F<ty> | R<k>[items]  (`if version >= k:`)
+  sreg <hex name> <id>                          -> ok     `DataHolder.object_map[name]` = class <id> (dropped by `clear`)
+  rq <hdr 0|1> <schema> <hex body>              -> ok <values> | err <exc>    what reading the parameters does (`RmcRequest.readRequest`)
+                                                   schema = `-` | <ty>…;  ty = B H I Q (u8..u64) b h i q (s8..s64) f d o(bool) s(string) u(buffer)
+                                                   k(qbuffer) t(datetime) U(stationurl) r(result) v(variant) a(anydata) L<ty> M<ty><ty> S<id>;
   hres    = ret:<hex> | <exc>          exc = rmc:<int> | type | index | memory | key | other | base
-  extract = ok | <exc>                 user = stub | raise:<exc> | ret:<good|wrong|missing>:<hres>
+  extract = ok | <exc> | m<hdr>:<schema>   (the last: computed by the model from the request's body)
+  user = stub | raise:<exc> | ret:<good|wrong|missing>:<hres>
                                             | retv:<where>:<slot>:<val>:<hex>   a result that is well typed except for <val> at a
                                               position declared <slot>; <hex> = the bytes the encoder writes if nothing fails
   where   = top.<list|bool|int|str|bytes|dict|result|datetime|data|cls> | in0 | in1 (attribute tested by check_required)
@@ -25,6 +33,107 @@ import NxModel.DriverUtil
             | Xd | Xr | Xu (DateTime/Result/StationURL) | Xn (a Data subclass) | Xs (another Structure) | O (opaque object)
 -/
 open Nx Nx.Rmc Nx.RmcServer Nx.RmcResult
+
+/-! request schemas (`NxModel/Nex/RmcRequest.lean`) -/
+namespace Rq
+open Nx.RmcRequest
+
+def pDigits : List Char → Nat → Nat × List Char
+  | c :: r, acc => if c.isDigit then pDigits r (acc * 10 + (c.toNat - 48)) else (acc, c :: r)
+  | [], acc => (acc, [])
+
+def pTy : Nat → List Char → Option (Ty × List Char)
+  | 0, _ => none
+  | _, [] => none
+  | f + 1, c :: r =>
+    match c with
+    | 'B' => some (.u8, r) | 'H' => some (.u16, r) | 'I' => some (.u32, r) | 'Q' => some (.u64, r)
+    | 'b' => some (.s8, r) | 'h' => some (.s16, r) | 'i' => some (.s32, r) | 'q' => some (.s64, r)
+    | 'f' => some (.float, r) | 'd' => some (.double, r) | 'o' => some (.bool, r)
+    | 's' => some (.string, r) | 'u' => some (.buffer, r) | 'k' => some (.qbuffer, r)
+    | 't' => some (.datetime, r) | 'U' => some (.stationurl, r) | 'r' => some (.result, r)
+    | 'v' => some (.variant, r) | 'a' => some (.anydata, r)
+    | 'L' => (pTy f r).map fun (t, r) => (.list t, r)
+    | 'M' => match pTy f r with
+      | some (k, r) => (pTy f r).map fun (v, r) => (.map k v, r)
+      | none => none
+    | 'S' => match pDigits r 0 with
+      | (n, ';' :: r) => some (.struct n, r)
+      | _ => none
+    | _ => none
+
+def pTys : Nat → List Char → Option (List Ty)
+  | 0, _ => none
+  | _, [] => some []
+  | f + 1, cs => match pTy (f + 1) cs with
+    | some (t, r) => (pTys f r).map (t :: ·)
+    | none => none
+
+/-- items up to the closing `]` (not consumed) or the end -/
+def pItems : Nat → List Char → Option (Items × List Char)
+  | 0, _ => none
+  | _, [] => some (.nil, [])
+  | _, ']' :: r => some (.nil, ']' :: r)
+  | f + 1, 'F' :: r =>
+    match pTy (f + 1) r with
+    | some (t, r) => (pItems f r).map fun (rest, r) => (.field t rest, r)
+    | none => none
+  | f + 1, 'R' :: r =>
+    match pDigits r 0 with
+    | (k, '[' :: r) =>
+      match pItems f r with
+      | some (body, ']' :: r) => (pItems f r).map fun (rest, r) => (.rev k body rest, r)
+      | _ => none
+    | _ => none
+  | _, _ => none
+
+def pLevel (s : String) : Option Items :=
+  match pItems (s.length + 2) s.toList with
+  | some (it, []) => some it
+  | _ => none
+
+def pLevels (s : String) : Option (List Items) :=
+  match s.toList with
+  | '=' :: r => ((String.ofList r).splitOn "/").mapM pLevel
+  | _ => none
+
+def pSchema (s : String) : Option (List Ty) := if s = "-" then some [] else pTys (s.length + 2) s.toList
+
+def nan32 (b : Nat) : Bool := (b / 8388608) % 256 == 255 && b % 8388608 != 0
+def nan64 (b : Nat) : Bool := (b / 4503599627370496) % 2048 == 2047 && b % 4503599627370496 != 0
+
+/-- a Python dict built by successive `map[key] = value`: an existing key keeps its place and gets the new value
+    (keys are ints / strings / None here: equal iff rendered alike) -/
+def dictSet (l : List (String × String)) (k v : String) : List (String × String) :=
+  if l.any (·.1 == k) then l.map fun p => if p.1 == k then (k, v) else p else l ++ [(k, v)]
+
+partial def showV : Nx.RmcRequest.Val → String
+  | .none => "N"
+  | .int i => s!"i{i}"
+  | .bool true => "T"
+  | .bool false => "F"
+  | .str s => "s" ++ hexOut s
+  | .bytes b => "y" ++ hexOut b
+  | .f32 b => if nan32 b then "fnan" else s!"f{b}"
+  | .f64 b => if nan64 b then "dnan" else s!"d{b}"
+  | .dt v => s!"t{v}"
+  | .res v => s!"r{v}"
+  | .url => "U"
+  | .list l => "[" ++ ",".intercalate (l.map showV) ++ "]"
+  | .map l =>
+    let d := l.foldl (fun acc kv => dictSet acc (showV kv.1) (showV kv.2)) []
+    "{" ++ ",".intercalate (d.map fun p => p.1 ++ ":" ++ p.2) ++ "}"
+  | .obj fs => "(" ++ ",".intercalate (fs.map showV) ++ ")"
+  | .any n fs => "A" ++ hexOut n ++ "(" ++ ",".intercalate (fs.map showV) ++ ")"
+
+/-- how the `except` clauses of `handle_request` see the exception -/
+def excOf : Err → Exc
+  | .key => .keyError
+  | .type => .typeError
+  | .index => .indexError
+  | _ => .other
+
+end Rq
 
 def parseNatsSep (sep : String) (r : List Char) : Option (List Nat) :=
   if r.isEmpty then some [] else ((String.ofList r).splitOn sep).mapM String.toNat?
@@ -164,14 +273,25 @@ def parseUser (s : String) : Option User :=
       | _, _, _, _ => none
     | _ => none
 
-def parseExtract (s : String) : Option (Option Exc) :=
-  if s = "ok" then some none else (parseExc s).map some
+/-- `body` = the body of the request the extraction is about (used by the `m<hdr>:<schema>` form only) -/
+def parseExtractIn (env : Nx.RmcRequest.Env) (body : Bytes) (s : String) : Option (Option Exc) :=
+  if s = "ok" then some none
+  else if s.startsWith "m0:" ∨ s.startsWith "m1:" then
+    match Rq.pSchema (s.drop 3).toString with
+    | some tys =>
+      match Nx.RmcRequest.readRequest env (s.startsWith "m1:") tys body with
+      | .ok _ => some none
+      | .error e => some (some (Rq.excOf e))
+    | none => none
+  else (parseExc s).map some
+
 
 structure D where
   tbl : List Server
   alive : Bool
+  env : Nx.RmcRequest.Env
 
-def stepTbl (tbl : List Server) (line : String) : List Server × String :=
+def stepTbl (env : Nx.RmcRequest.Env) (tbl : List Server) (line : String) : List Server × String :=
   match line.splitOn " " with
   | ["clear"] => ([], "ok")
   | ["srv", p, nr, ms] =>
@@ -190,16 +310,19 @@ def stepTbl (tbl : List Server) (line : String) : List Server × String :=
     | some sl, some v => (tbl, match incompat sl v with | none => "-" | some e => showExc e)
     | _, _ => (tbl, "bad-op")
   | ["inv", h, ex] =>
-    match fromHex h, parseExtract ex with
-    | some d, some ex =>
+    match fromHex h with
+    | some d =>
       match decode d with
       | .error e => (tbl, "crash " ++ e.name)
       | .ok m =>
         if m.mode ≠ 0 then (tbl, "notreq") else
+        match parseExtractIn env m.body ex with
+        | none => (tbl, "bad-op")
+        | some ex =>
         match dispatch tbl m ex with
         | none => (tbl, "nosrv")
         | some (p, mid, u) => (tbl, s!"{p}:{mid}:" ++ (match u with | none => "-" | some k => toString k))
-    | _, _ => (tbl, "bad-op")
+    | _ => (tbl, "bad-op")
   | ["react", h, r] =>
     match fromHex h, parseHres r with
     | some d, some hres =>
@@ -208,25 +331,28 @@ def stepTbl (tbl : List Server) (line : String) : List Server × String :=
       | .ok m => if m.mode ≠ 0 then (tbl, "notreq") else (tbl, showReaction (react (registryOf tbl) m hres))
     | _, _ => (tbl, "bad-op")
   | ["gen", p, m, ex, u] =>
-    match p.toNat?, m.toNat?, parseExtract ex, parseUser u with
+    match p.toNat?, m.toNat?, parseExtractIn env [] ex, parseUser u with
     | some p, some m, some ex, some u =>
       match findServer p tbl with
       | some srv => (tbl, showHres (generatedHandle srv m ex u))
       | none => (tbl, "nosrv")
     | _, _, _, _ => (tbl, "bad-op")
   | ["full", h, ex, u] =>
-    match fromHex h, parseExtract ex, parseUser u with
-    | some d, some ex, some u =>
+    match fromHex h, parseUser u with
+    | some d, some u =>
       match decode d with
       | .error e => (tbl, "crash " ++ e.name)
       | .ok m =>
         if m.mode ≠ 0 then (tbl, "notreq") else
+        match parseExtractIn env m.body ex with
+        | none => (tbl, "bad-op")
+        | some ex =>
         match findServer m.protocol tbl, m.method with
         | some srv, some mid =>
           let hres := generatedHandle srv mid ex u
           (tbl, showHres hres ++ " => " ++ showReaction (react (registryOf tbl) m hres))
         | _, _ => (tbl, "nosrv => " ++ showReaction (react (registryOf tbl) m (.returned [])))
-    | _, _, _ => (tbl, "bad-op")
+    | _, _ => (tbl, "bad-op")
   | _ => (tbl, "bad-op")
 
 /-- `sbegin` starts a connection; `sreq <hex> <extract> <user>` is its next request, answered through
@@ -234,13 +360,34 @@ def stepTbl (tbl : List Server) (line : String) : List Server × String :=
 def stepLine (d : D) (line : String) : D × String :=
   match line.splitOn " " with
   | ["sbegin"] => ({ d with alive := true }, "ok")
+  | ["sdef", id, ls] =>
+    match id.toNat?, Rq.pLevels ls with
+    | some id, some ls => ({ d with env := { d.env with structs := (id, ls) :: d.env.structs.filter (·.1 ≠ id) } }, "ok")
+    | _, _ => (d, "bad-op")
+  | ["sreg", n, id] =>
+    match fromHex n, id.toNat? with
+    | some n, some id => ({ d with env := { d.env with registry := (n, id) :: d.env.registry } }, "ok")
+    | _, _ => (d, "bad-op")
+  | ["clear"] => ({ d with tbl := [], env := { d.env with registry := [] } }, "ok")
+  | ["rq", hdr, sch, h] =>
+    match Rq.pSchema sch, fromHex h with
+    | some tys, some b =>
+      if hdr = "0" ∨ hdr = "1" then
+        (d, match Nx.RmcRequest.readRequest d.env (hdr = "1") tys b with
+            | .ok vs => "ok " ++ ",".intercalate (vs.map Rq.showV)
+            | .error e => "err " ++ showExc (Rq.excOf e))
+      else (d, "bad-op")
+    | _, _ => (d, "bad-op")
   | ["sreq", h, ex, u] =>
-    match fromHex h, parseExtract ex, parseUser u with
-    | some data, some ex, some u =>
+    match fromHex h, parseUser u with
+    | some data, some u =>
       match decode data with
       | .error e => (d, "crash " ++ e.name)
       | .ok m =>
         if m.mode ≠ 0 then (d, "notreq") else
+        match parseExtractIn d.env m.body ex with
+        | none => (d, "bad-op")
+        | some ex =>
         let hres : Option HandleResult := match findServer m.protocol d.tbl, m.method with
           | some srv, some mid => some (generatedHandle srv mid ex u)
           | _, _ => none
@@ -249,7 +396,7 @@ def stepLine (d : D) (line : String) : D × String :=
          match r with
          | none => "dead"
          | some r => (match hres with | some h => showHres h | none => "nosrv") ++ " => " ++ showReaction r)
-    | _, _, _ => (d, "bad-op")
-  | _ => let (t, o) := stepTbl d.tbl line; ({ d with tbl := t }, o)
+    | _, _ => (d, "bad-op")
+  | _ => let (t, o) := stepTbl d.env d.tbl line; ({ d with tbl := t }, o)
 
-def main : IO Unit := runState ({ tbl := [], alive := true } : D) stepLine
+def main : IO Unit := runState ({ tbl := [], alive := true, env := { structs := [], registry := [] } } : D) stepLine
